@@ -208,10 +208,12 @@ fn mode_stage(inp: &str, outp: &str) -> i32 {
                 if let Some(vin) = job.get("vertex_inputs").and_then(|v| v.get(&key)) {
                     for pair in vin.as_array().unwrap() {
                         let loc = pair[0].as_u64().unwrap() as u32;
-                        if let Ok(fmt) =
-                            serde_json::from_value::<wgpu_types::VertexFormat>(pair[1].clone())
-                        {
-                            inputs.insert(loc, InterfaceVar::vertex_attribute(fmt));
+                        let name = pair[1].as_str().unwrap_or("").to_lowercase();
+                        match serde_json::from_value::<wgpu_types::VertexFormat>(json!(name)) {
+                            Ok(fmt) => {
+                                inputs.insert(loc, InterfaceVar::vertex_attribute(fmt));
+                            }
+                            Err(e) => rec["harness_error"] = json!(format!("format {name}: {e}")),
                         }
                     }
                 }
@@ -231,6 +233,47 @@ fn mode_stage(inp: &str, outp: &str) -> i32 {
                 });
             }
             rec["check_stage"] = json!(results);
+        }
+        // pipeline-overridable constants: naga's own resolution of a recorded map
+        if let Some(ovs) = job.get("overrides").and_then(|o| o.as_array()) {
+            let mut outs = Vec::new();
+            for o in ovs {
+                let mut map = naga::back::PipelineConstants::default();
+                if let Some(m) = o.get("map").and_then(|m| m.as_object()) {
+                    for (k, v) in m {
+                        let bits = u64::from_str_radix(v.as_str().unwrap_or("0"), 16).unwrap_or(0);
+                        map.insert(k.clone(), f64::from_bits(bits));
+                    }
+                }
+                let r = naga::back::pipeline_constants::process_overrides(&module, &info, &map);
+                outs.push(match r {
+                    Err(e) => json!({"variant": o["variant"], "ok": false, "err": format!("{e}")}),
+                    Ok((m2, _)) => {
+                        let mut consts = serde_json::Map::new();
+                        for (_, ov) in module.overrides.iter() {
+                            let name = ov.name.clone().unwrap_or_default();
+                            for (_, c) in m2.constants.iter() {
+                                if c.name.as_deref() == Some(name.as_str()) {
+                                    let v = match &m2.global_expressions[c.init] {
+                                        naga::Expression::Literal(l) => match l {
+                                            naga::Literal::F32(v) => json!(*v as f64),
+                                            naga::Literal::F64(v) => json!(*v),
+                                            naga::Literal::U32(v) => json!(*v as f64),
+                                            naga::Literal::I32(v) => json!(*v as f64),
+                                            naga::Literal::Bool(v) => json!(if *v { 1.0 } else { 0.0 }),
+                                            _ => json!(null),
+                                        },
+                                        _ => json!(null),
+                                    };
+                                    consts.insert(name.clone(), v);
+                                }
+                            }
+                        }
+                        json!({"variant": o["variant"], "ok": true, "consts": consts})
+                    }
+                });
+            }
+            rec["overrides"] = json!(outs);
         }
         // derived layouts (informational)
         if job.get("derive").and_then(|v| v.as_bool()).unwrap_or(false) {
